@@ -200,6 +200,30 @@ def boundary_draws(weights):
     return sorted(v for v in vals if v >= 0)  # FixedSource clips into the range the function asks for
 
 
+def negative_declarations(find):
+    """A declared weight below zero next to positive / unweighted siblings: the extracted grammar must either be refused or
+    have weights that are non-negative (and at most one) -- it must never carry a negative production weight."""
+    n = 0
+    for h in (h_flat, h_two):
+        label0, _, cls0, rules0 = h()
+        for rule, prods in rules0.items():
+            if len(prods) < 2:
+                continue
+            for neg in (-1, -0.5):
+                n += 1
+                assignment = {prods[0]: neg, prods[1]: 3}
+                label, root, cls, rules = build(h, assignment)
+                try:
+                    g = extract_grammar(list(cls.values()), root)
+                except Exception:  # noqa  (refusing the declaration is fine)
+                    continue
+                w = g.get_weights()
+                bad = {k.__name__: v for k, v in w.items() if isinstance(v, (int, float)) and (v < 0 or v > 1 + 1e-9)}
+                if bad:
+                    find.add("rt:C19:extract_grammar.negative_weight_accepted", f"{label} with declared weights {{{prods[0]}: {neg}, {prods[1]}: 3}}: extraction succeeded with production weights outside [0, 1]: {bad}", (len(prods), abs(neg)))
+    return n
+
+
 def run(tier: str, seed: int) -> dict:
     quick = tier != "thorough"
     dl = Deadline(20 if quick else 200)
@@ -212,6 +236,7 @@ def run(tier: str, seed: int) -> dict:
     complete = True
     notes = []
 
+    evaluations += negative_declarations(find)
     for h in HIERARCHIES:
         label0, _, cls0, rules0 = h()
         prods = [p for r in rules0.values() for p in r]
